@@ -442,7 +442,9 @@ SPECS["C18"] = dict(
     max_parallel=12,
     jobs=engine_jobs("c18", "./verifx/c18", [
         dict(id="enumerate", run="^TestC18Enumerate$", rapid=False, quick=dict(shards=6, timeout=900), thorough=dict(shards=8, timeout=3400)),
+        dict(id="client", run="^TestC18Client$", rapid=False, quick=dict(shards=4, timeout=900), thorough=dict(shards=6, timeout=3400)),
         dict(id="random", run="^TestC18Random$", quick=dict(shards=3, checks=40, timeout=900, shrinktime=30), thorough=dict(shards=4, checks=1500, timeout=3400, shrinktime=300)),
+        dict(id="udpclient", run="^TestC18UDPClient$", quick=dict(shards=2, checks=300, timeout=900, shrinktime=30), thorough=dict(shards=4, checks=4000, timeout=3400, shrinktime=300)),
         dict(id="udp", run="^TestC18UDP$", quick=dict(shards=2, checks=400, timeout=900, shrinktime=30), thorough=dict(shards=4, checks=4000, timeout=3400, shrinktime=300)),
     ]),
 )
